@@ -144,6 +144,20 @@ def run(ctx):
         if ctx.tier == 'thorough' and i % 5 == 0:
             c['hashseed'] = rng.randint(1, 1000)
         cases.append(c)
+    # server mode: every request is submitted with the configured rule options, whatever the earlier requests asked for
+    from props import C17 as c17
+    scases = []
+    for _ in range(ctx.scale(4, 60)):
+        reqs = [c17.gen_request(rng) for _ in range(rng.randint(2, 3))]
+        reqs.insert(1, dict(c17.gen_request(rng), disabledRules='BAR_RULE'))
+        scases.append((reqs, rng.choice(['--disable FOO_RULE', '--enable A_RULE --disablecategories TYPOS', '--disable R1 -eo'])))
+    for (reqs, lto), (together, alone) in zip(scases, ctx.pmap(c17.server_case, scases, chunksize=1)):
+        ctx.case(json.dumps([reqs, lto], sort_keys=True)); ctx.count('server_sequences')
+        for i, (a, b) in enumerate(zip(together, alone)):
+            if a != b:
+                ctx.violation('server: request %d is submitted with the options %r after the earlier requests, but with %r when it is the first request (configured --lt-options %r)'
+                              % (i + 1, a[1], b[1], lto), requests=reqs[:i + 1], lt_options=lto, server=True)
+                break
     ctx.stats['_rule'] = ('generated documents (several lines, non-ASCII text, footnotes, items, headings, inline maths, language switches) x 1-4 flagged '
                           'unique words returned by a fake proofreader in arbitrary order x output modes plain/json/xml/xml-b/html (subprocess '
                           '`python -m yalafi.shell --lt-command`), single- and multi-language; expected line/column/length from the offsets of the words '
